@@ -8,6 +8,21 @@ ROOT = os.path.dirname(os.path.dirname(os.path.abspath(__file__)))
 TECH = "CrossHair 0.0.110 symbolic execution of the real redun functions, each path decided by z3 (bounded; see evidence)"
 
 CLAIMED = {
+    "C06": dict(
+        text="%sAsserted per run: every (task, eval hash, context hash) reaches the executor at most once unless opted out, twins get the same result/error, equal expressions under one parent create one job, the outcome is the prescribed one; with the backend cache and with cache=False." % LAB,
+        note="Templates: main -> <= 3-4 branches mid -> leaf with duplicates, shared non-leaf calls, failing/caught leaves, a leaf demanding the whole limit, optional catch_all / unknown-executor branch. Real thread/process executors and prov=False jobs are outside.",
+        design="3/C08-C09-C06-C07-C12",
+        technique=TECH + "; scheduler run natively under a controlled executor/queue with symbolic limits and solver-chosen schedules"),
+    "C08": dict(
+        text="%sAsserted at every submission, event and at the end: units held by submitted-and-unfinished jobs <= limit (1 if unconfigured), the scheduler's account never below what is in flight, zero when the run ends." % LAB,
+        note="Same templates as C06; limit >= 1 symbolic, demand 1 <= count <= limit symbolic, list and dict demand forms, unconfigured limit.",
+        design="3/C08-C09-C06-C07-C12",
+        technique=TECH + "; scheduler run natively under a controlled executor/queue with symbolic limits and solver-chosen schedules"),
+    "C09": dict(
+        text="%sAsserted: the run never reaches 'queue empty, nothing in flight, workflow pending', returns the prescribed value or raises an admissible error, and leaves nothing in flight / waiting for limits / pending / unfinalized." % LAB,
+        note="Same templates as C06/C08; every task function terminates, demand <= limit.",
+        design="3/C08-C09-C06-C07-C12",
+        technique=TECH + "; scheduler run natively under a controlled executor/queue with symbolic limits and solver-chosen schedules"),
     "C13": dict(
         text="Bounded model checking by symbolic execution: the real Promise class is run on every operation sequence of "
              "the stated length (operation choice = solver variables) and compared with a reference model of the "
